@@ -1106,7 +1106,7 @@ func (m *membersPool) Get(k *net.UDPAddr) (Member, bool) {
 	case !found, i == nil:
 		return nil, false
 	default:
-		return i, false
+		return i, true
 	}
 }
 
@@ -1149,19 +1149,17 @@ func (m *membersPool) MembersLen(node base.Address) int {
 }
 
 func (m *membersPool) Set(member Member) (added bool) {
-	_, _, _ = m.addrs.Set(memberid(member.Addr()), func(_ Member, addrfound bool) (Member, error) {
-		var members []Member
-
+	_, _, _ = m.addrs.Set(memberid(member.Addr()), func(old Member, addrfound bool) (Member, error) {
 		added = !addrfound
 
-		switch i, f := m.members.Value(member.Address().String()); {
-		case !f, i == nil:
-		default:
-			members = i
+		if addrfound && old != nil {
+			// NOTE re-joined; previous member of this addr is replaced
+			m.removeFromNode(old)
 		}
 
-		members = append(members, member)
-		m.members.SetValue(member.Address().String(), members)
+		_, _, _ = m.members.Set(member.Address().String(), func(members []Member, _ bool) ([]Member, error) {
+			return append(members, member), nil
+		})
 
 		return member, nil
 	})
@@ -1171,12 +1169,33 @@ func (m *membersPool) Set(member Member) (added bool) {
 
 func (m *membersPool) Remove(k *net.UDPAddr) (bool, error) {
 	return m.addrs.Remove(memberid(k), func(i Member, found bool) error {
-		if found {
-			_ = m.members.RemoveValue(i.Address().String())
+		if found && i != nil {
+			m.removeFromNode(i)
 		}
 
 		return nil
 	})
+}
+
+// removeFromNode removes only the given member(by it's addr) from the members
+// of it's node; the other members of the node are kept.
+func (m *membersPool) removeFromNode(member Member) {
+	id := memberid(member.Addr())
+
+	_, _, _, _ = m.members.SetOrRemove(
+		member.Address().String(),
+		func(members []Member, found bool) ([]Member, bool, error) {
+			if !found {
+				return nil, false, util.ErrLockedSetIgnore.WithStack()
+			}
+
+			left := util.FilterSlice(members, func(n Member) bool {
+				return memberid(n.Addr()) != id
+			})
+
+			return left, len(left) < 1, nil
+		},
+	)
 }
 
 func (m *membersPool) Len() int {
